@@ -88,6 +88,8 @@ def variants_boundary_vectors(ctx):
                     s[7] = "G"          # codon 2 GCT -> GGT (aa:g1:A2G) in k+1
                 qs.append(s)
             rng.shuffle(qs)
-            out.append({"id": "vthr-%d-%d" % (k, n), "kind": "anno", "R": list(GENOME), "qs": qs, "feats": feats,
+            # every third vector carries the reference record twice (two alignments to one reference, concatenated): the
+            # per-sequence output skips both copies, so neither may be counted
+            out.append({"id": "vthr-%d-%d" % (k, n), "kind": "anno", "R": list(GENOME), "qs": qs, "feats": feats, "refdup": (k + n) % 3 == 0,
                         "runs": [run(False, 0), run(True, k * 1000 // n)]})
     return out
